@@ -815,11 +815,13 @@ class WorkflowConductor(object):
         if not in_ctx_idxs:
             in_ctx_idxs = [0]
 
+        # Copy the context pointers and the back references so that the task state entry does
+        # not share them with the staged task, which may be updated while this task is running.
         task_state_entry = {
             "id": task_id,
             "route": route,
-            "ctxs": {"in": in_ctx_idxs},
-            "prev": prev or {},
+            "ctxs": {"in": json_util.deepcopy(in_ctx_idxs)},
+            "prev": json_util.deepcopy(prev or {}),
             "next": {},
         }
 
